@@ -25,6 +25,11 @@ CLASS_FIELDS = {
     "HRGLabels": {"_node_labels": "dict[str,NodeLabel]", "_edge_labels": "dict[str,EdgeLabel]", "_rules": "opaque"},
     # an HRG with its rule table, the rules being immutable snapshots (RuleV): all_rules / rules are verified on this view
     "HRGTable": {"_node_labels": "dict[str,NodeLabel]", "_edge_labels": "dict[str,EdgeLabel]", "_rules": "dict[EdgeLabel,seq[RuleV]]"},
+    # a whole HRG: label tables, rule table (rules as snapshots) and a start symbol that is set
+    "HRGFull": {"_node_labels": "dict[str,NodeLabel]", "_edge_labels": "dict[str,EdgeLabel]",
+                "_rules": "dict[EdgeLabel,seq[RuleV]]", "_start": "EdgeLabel"},
+    "HRG": {"_node_labels": "dict[str,NodeLabel]", "_edge_labels": "dict[str,EdgeLabel]",
+            "_rules": "dict[EdgeLabel,seq[RuleV]]", "_start": "EdgeLabel"},
     # an HRG as far as its start symbol goes
     "HRGStart": {"_start": "EdgeLabel"},
     "FiniteDomain": {"values": "list[PyVal]", "_value_index": "dict[PyVal,int]"},
@@ -32,7 +37,7 @@ CLASS_FIELDS = {
 }
 
 # concrete class used for method resolution when the static type is one of the pseudo classes above
-RESOLVE_AS = {"LabelTable": "Graph", "Interp": "FactorGraph", "HRGView": "HRG", "HRGLabels": "HRG", "HRGStart": "HRG", "HRGTable": "HRG"}
+RESOLVE_AS = {"LabelTable": "Graph", "Interp": "FactorGraph", "HRGView": "HRG", "HRGLabels": "HRG", "HRGStart": "HRG", "HRGTable": "HRG", "HRGFull": "HRG"}
 
 
 def check_schema(program) -> list:
